@@ -453,3 +453,46 @@ def _inplace_roots(node: ast.AST) -> set[str]:
             if "." not in tok:
                 inplace.add(tok)
     return inplace - bound
+
+
+def truth_set(test, subject: str, universe: list):
+    """For a boolean expression built from comparisons of `subject` with constants: the members of `universe` for which it is
+    true; None when the expression is not of that shape."""
+    import ast as _ast
+
+    def ev(n, s_):
+        if isinstance(n, _ast.BoolOp):
+            vals = [ev(v, s_) for v in n.values]
+            if any(v is None for v in vals):
+                return None
+            return all(vals) if isinstance(n.op, _ast.And) else any(vals)
+        if isinstance(n, _ast.UnaryOp) and isinstance(n.op, _ast.Not):
+            v = ev(n.operand, s_)
+            return None if v is None else not v
+        if isinstance(n, _ast.Compare) and len(n.ops) == 1 and _ast.unparse(n.left) == subject:
+            c = n.comparators[0]
+            if isinstance(c, _ast.Constant):
+                vals = c.value
+            elif isinstance(c, (_ast.List, _ast.Tuple, _ast.Set)) and all(isinstance(e, _ast.Constant) for e in c.elts):
+                vals = [e.value for e in c.elts]
+            else:
+                return None
+            op = n.ops[0]
+            if isinstance(op, _ast.Eq):
+                return s_ == vals
+            if isinstance(op, _ast.NotEq):
+                return s_ != vals
+            if isinstance(op, _ast.In):
+                return s_ in vals
+            if isinstance(op, _ast.NotIn):
+                return s_ not in vals
+        return None
+
+    out = set()
+    for s_ in universe:
+        v = ev(test, s_)
+        if v is None:
+            return None
+        if v:
+            out.add(s_)
+    return out
